@@ -17,7 +17,10 @@ FUNCS = [("Class", "GetNotForwardDeclarableNonPrimitiveTypesLinkedToThis"), ("Cl
 
 
 def is_sorted_call(n):
-    return isinstance(n, ast.Call) and isinstance(n.func, ast.Name) and n.func.id == "sorted"
+    # plain sorted(<expr>): a key= (or reverse= with a key) can make the order depend on the set's iteration order again
+    # (stable sort + non-injective key), so any keyword is refused
+    return (isinstance(n, ast.Call) and isinstance(n.func, ast.Name) and n.func.id == "sorted"
+            and len(n.args) == 1 and not n.keywords)
 
 
 def run():
@@ -44,8 +47,41 @@ def run():
                     for c in ast.walk(m):
                         if isinstance(c, ast.Call) and isinstance(c.func, ast.Name) and c.func.id in ("set", "frozenset"):
                             raise Refuse("%s.%s builds a set: not covered" % (n.name, m.name))
-    text = "Definition sorted_set_functions : list string := %s.\n" % coq_str_list(checked)
-    return write_gen("SetOrder.v", text, ["kojen/vppclassdiagram.py"])
+    membership_only = []
+    for rel, cls in (("kojen/LanguageCPP.py", "LanguageCPP"), ("kojen/LanguageCsharp.py", "LanguageCsharp")):
+        t2 = parse(rel)
+        for n in ast.walk(t2):
+            if isinstance(n, ast.ClassDef):
+                for m in n.body:
+                    if not isinstance(m, ast.FunctionDef):
+                        continue
+                    setnames = set()
+                    for c in ast.walk(m):
+                        if isinstance(c, ast.Assign) and isinstance(c.value, ast.Call) and isinstance(c.value.func, ast.Name) \
+                                and c.value.func.id in ("set", "frozenset") and len(c.targets) == 1 and isinstance(c.targets[0], ast.Name):
+                            setnames.add(c.targets[0].id)
+                        elif isinstance(c, ast.Call) and isinstance(c.func, ast.Name) and c.func.id in ("set", "frozenset") and not any(
+                                isinstance(p, ast.Assign) and p.value is c for p in ast.walk(m)):
+                            raise Refuse("%s.%s builds a set that is not bound to a plain name" % (n.name, m.name))
+                    if not setnames:
+                        continue
+                    # every use of such a name must be a membership test, an `is None` test, or passing it on to the same method
+                    parents = {}
+                    for p in ast.walk(m):
+                        for ch in ast.iter_child_nodes(p):
+                            parents[ch] = p
+                    for c in ast.walk(m):
+                        if isinstance(c, ast.Name) and c.id in setnames and isinstance(c.ctx, ast.Load):
+                            p = parents.get(c)
+                            ok = (isinstance(p, ast.Compare) and c in p.comparators and all(isinstance(o, (ast.In, ast.NotIn)) for o in p.ops)) \
+                                or (isinstance(p, ast.Compare) and p.left is c and all(isinstance(o, (ast.Is, ast.IsNot)) for o in p.ops)) \
+                                or (isinstance(p, ast.Call) and isinstance(p.func, ast.Attribute) and p.func.attr == m.name and c in p.args)
+                            if not ok:
+                                raise Refuse("%s.%s uses the set %s other than for membership tests" % (n.name, m.name, c.id))
+                    membership_only.append("%s.%s" % (n.name, m.name))
+    text = "Definition membership_only_set_functions : list string := %s.\n" % coq_str_list(membership_only)
+    text += "Definition sorted_set_functions : list string := %s.\n" % coq_str_list(checked)
+    return write_gen("SetOrder.v", text, ["kojen/vppclassdiagram.py", "kojen/LanguageCPP.py", "kojen/LanguageCsharp.py"])
 
 
 if __name__ == "__main__":
